@@ -37,6 +37,14 @@ CHECKS.update({
    "Every file of a small PAR2 and PAR1 set x every truncation offset x every bit flip x garbage/empty/delete, subsets of deletions, pairs; header-dense enumeration on larger sets; every prefix of Create's recorded write sequence with the last write torn at every byte/boundary. Each resulting directory is handed to the real Verify and Repair; no panic/hang, soundness of whatever is reported usable, and the C02 write oracle.",
    "Trusted base: envfs, ref readers (incl. a resynchronising packet scanner for 'intact recovery packets'), brute-force scan.", "DESIGN.md 3/C13"),
 })
+CHECKS.update({
+ "C14": ("model_checking", "explicit-state breadth-first search of the directory-state graph; every transition executes the real Verify/Repair",
+   "Breadth-first search to closure of the reachable directory-state graph (files x content variants x recovery files present/absent) under damage, restore, delete/restore-volume, Verify, Repair and Repair+double-check events. Successor states of Verify/Repair are computed by the real implementation on a fresh filesystem built from the state; invariants (Verify is the identity and a function of the state, successful Repair is clean and idempotent in both modes, failed Repair never worsens a file, convergence once all recovery files are back) are evaluated on every transition. States, transitions and depth are reported.",
+   "The model is the implementation (no separate model to validate). State abstraction = exact directory contents; content variants are a fixed alphabet of 7 (PAR1: 5) per file.", "DESIGN.md 3/C14"),
+ "C18": ("fault_enumeration", "exhaustive fault injection at every I/O call index (singly and in pairs) on an owned filesystem",
+   "For every operation, archive state and listing order, a fault of each kind is injected at each I/O call index of the never-faulted run, and for each of those every second fault in the re-run; each history ends with a fault-free re-run compared against the never-faulted run. All histories within the bound (2 faults) are enumerated.",
+   "Faults are injected at the fileIO seam via the build-tagged wrappers; torn writes leave a prefix. Listing-order choice covers 3 of the n! orders.", "DESIGN.md 3/C18"),
+})
 NOT_YET = "check not built yet in this round (work in progress; see DESIGN.md section 3 for the planned model-checking harness)"
 
 def main():
